@@ -76,7 +76,11 @@ def identities(chk, dom, operands):
     chk.instance("R02.2", len(operands) * 8)
 
 
+OBS_PRERELEASE = ["3.7.2rc1", "3.7.2.post1", "3.7.2.dev3", "3.8.0b2", "3.8.0.post2", "3.8rc1"]
+
+
 def observers(chk, dom, atoms):
+    from ..markdomain import atom_truth
     """R02.5: interpreted evaluate() of atoms/groups == PEP 508 meaning, varying the atom's own variable."""
     base = dict(dom.envs.envs[0])
     n = 0
@@ -112,6 +116,30 @@ def observers(chk, dom, atoms):
                          {"atom": dom.show(a), "env": {name: str(val)}})
             else:
                 chk.ok("R02.5", key=(dom.show(a), str(val)))
+        # pre-/post-/dev-release interpreter versions: PEP 440's exclusive-ordering rules make `<`/`>` asymmetric there, so the
+        # operand orientation of literal-on-the-left atoms is observable only on these candidates
+        if name in ("python_full_version", "python_version"):
+            for full in OBS_PRERELEASE:
+                pv = ".".join(full.split(".")[:2])
+                val = full if name == "python_full_version" else pv
+                env = dict(base)
+                env["python_full_version"], env["python_version"] = full, pv
+                env = {kk: (set(v) if isinstance(v, frozenset) else v) for kk, v in env.items()}
+                try:
+                    exp = atom_truth(spec[0], spec[1], spec[2], spec[3], val)
+                    got = dom.evaluate(a, env)
+                except Undefined:
+                    continue
+                except PyRaise as ex:
+                    chk.fail("R02.5", construct + ":prerelease-env", f"evaluate of {dom.show(a)} raises {ex.exc!r} at {name}={val!r}")
+                    continue
+                n += 1
+                if got != exp:
+                    chk.fail("R02.5", construct + (":reversed" if spec[3] else "") + ":prerelease-env",
+                             f"{dom.show(a)} evaluates to {got} at {name}={val!r}; PEP 508/440 meaning is {exp}",
+                             {"atom": dom.show(a), "env": {name: val}})
+                else:
+                    chk.ok("R02.5", key=(dom.show(a), val))
     chk.instance("R02.5", n)
 
 
